@@ -22,8 +22,8 @@ from overlay import InfraError, log, sh, VERIF, REPO  # noqa: E402
 
 TIERS = {
     # per-harness cap (s), per-harness memory cap (GB), parallel jobs, whole-check cap (s)
-    "quick": {"harness_timeout": 420, "mem_gb": 12, "jobs": 8, "total": 1500},
-    "thorough": {"harness_timeout": 1500, "mem_gb": 20, "jobs": 8, "total": 7200},
+    "quick": {"harness_timeout": 420, "mem_gb": 10, "jobs": 8, "total": 1500},
+    "thorough": {"harness_timeout": 1500, "mem_gb": 16, "jobs": 8, "total": 7200},
 }
 
 PROPS = ["C%02d" % i for i in range(1, 21)]
@@ -103,8 +103,11 @@ def cbmc_watchdog(pgid, mem_gb, stop, killed):
     import threading
     page = os.sysconf("SC_PAGE_SIZE")
     cap = mem_gb * (1 << 30)
+    total_cap = int(os.environ.get("VERIF_TOTAL_MEM_GB", "44")) * (1 << 30)
     while not stop.is_set():
         try:
+            mine = []
+            everyone = 0
             for pid in os.listdir("/proc"):
                 if not pid.isdigit():
                     continue
@@ -114,15 +117,29 @@ def cbmc_watchdog(pgid, mem_gb, stop, killed):
                     if comm != "cbmc":
                         continue
                     rest = st[st.rindex(")") + 2:].split()
+                    rss = int(rest[21]) * page
+                    everyone += rss
                     if int(rest[2]) != pgid:
                         continue
-                    rss = int(rest[21]) * page
+                    mine.append((rss, int(pid)))
                     if rss > cap:
                         os.kill(int(pid), 9)
                         killed.append((int(pid), rss))
                         log("watchdog: killed cbmc pid %s (rss %.1f GB > cap %d GB)" % (pid, rss / 2**30, mem_gb))
                 except (IOError, OSError, ValueError, IndexError):
                     continue
+            # machine-wide budget over all CBMC processes (this sandbox has no swap): the largest of
+            # OUR processes is sacrificed (its harness becomes inconclusive) before the kernel's
+            # OOM killer takes an arbitrary one
+            if everyone > total_cap and mine:
+                rss, pid = max(mine)
+                try:
+                    os.kill(pid, 9)
+                    killed.append((pid, rss))
+                    log("watchdog: all CBMC processes use %.1f GB > %.0f GB: killed pid %d (rss %.1f GB)" % (
+                        everyone / 2**30, total_cap / 2**30, pid, rss / 2**30))
+                except OSError:
+                    pass
         except Exception:
             pass
         stop.wait(2.0)
@@ -305,7 +322,7 @@ def check(args):
         # dir (hard-link copy of the dependency cache).  Kani generates one goto binary per
         # harness sequentially inside one rustc run, so sharding parallelises code generation too.
         log("%s/%s: %d harness(es): %s" % (prop, tier, len(sel), " ".join(h.name for h in sel)))
-        total_jobs = args.jobs or 16
+        total_jobs = args.jobs or 12
         shard_size = int(os.environ.get("VERIF_SHARD_SIZE", "2"))
         shards = [sel[i:i + shard_size] for i in range(0, len(sel), shard_size)]
         par_shards = max(1, min(len(shards), total_jobs // min(shard_size, max(1, len(sel)))))
